@@ -18,7 +18,8 @@ TEXT = {
     "C03": ("invariant at a hook (after every refine()) under hostile seeded refinement decisions",
             "Observer subclass of the dimension-wise strategy judged after every refinement step of seeded hostile "
             "histories (random error estimator): sorted nested 1-D point sets, per-point coefficient sum exactly 1, nodal "
-            "reproduction of a hash-valued function.", "4.C03"),
+            "reproduction of a hash-valued function through __call__ and interpolate_grid; histories include earlier runs on the same "
+            "object, restarts with refinement_container and the recalculate_frequently option.", "4.C03"),
     "C04": ("runtime monitor: exactness oracle at every evaluation of hostile refinement histories",
             "Basis functions of the initially-exact space are carried as extra output components through real adaptive "
             "runs; at every evaluation the combined integral and at the end the interpolant are compared with analytic "
@@ -26,7 +27,8 @@ TEXT = {
     "C05": ("differential twins + independent recomputation at every evaluation",
             "At every stop of real runs the reported value is compared with a coefficient-weighted recomputation from "
             "fresh grid objects, with evaluate_final_combi on a deep copy, with the reevaluate_at_end twin and with "
-            "sum w_i f(p_i) over the exposed points and weights.", "4.C05"),
+            "sum w_i f(p_i) over the exposed points and weights; extend-split histories include restarts with refinement_container, "
+            "recalculate_frequently, high-order grids and per-dimension boundary flags.", "4.C05"),
     "C06": ("invariant at a hook (after every refine()) + selection-rule model",
             "Structural invariants of the per-dimension interval containers are asserted after every refine() of seeded "
             "hostile histories, and the set of split intervals is compared with the margin rule evaluated on a snapshot "
@@ -52,10 +54,12 @@ TEXT = {
             "analytic integrals are compared with an independent tensor Gauss-Legendre reference.", "4.C12"),
     "C13": ("offline checker over the recorded event list of each adaptive run",
             "Observers record EVAL/REFINE events of real adaptive runs over generated limits; the stop rule, array lengths, "
-            "monotonicity, non-negativity, the error formula and the distinct-evaluation count are decided on the trace.", "4.C13"),
+            "monotonicity, non-negativity, the error formula and the distinct-evaluation count are decided on the trace; "
+            "continue_adaptive_refinement with other limits is judged as a call segment of its own.", "4.C13"),
     "C14": ("differential twins over every interruption point (stop / save / restore / continue)",
             "For each evaluation index of an uninterrupted run, an interrupted (and a saved+restored) twin is continued and "
-            "its final structure, scheme, result and point count are compared with the uninterrupted run.", "4.C14"),
+            "its final structure, scheme, result and point count are compared with the uninterrupted run; chains of two "
+            "interruptions, tolerance continuations, interpolation calls between stop and continue, idempotent second continuations.", "4.C14"),
     "C15": ("reference-model monitor on weighted grids + moment-transformation oracle on real UQ runs",
             "Weighted trapezoidal weights and midpoints are judged on generated trees and distributions; E/Var relations "
             "are asserted on real dimension-wise UQ runs with vector-valued models.", "4.C15"),
@@ -117,7 +121,8 @@ def main():
         "notes": "exit 0 held / 1 VIOLATION / 2 INCONCLUSIVE (deciding monitor not reached, shard timeout, harness error). "
                  "Generators deliberately include second-use histories (re-initialised / restarted / re-saved objects, reused grid, "
                  "operation, function and data objects, caller-owned arrays), ties and exact boundaries, non-default options; "
-                 "110 independently seeded property-breaking changes (seeded/) and 53 own mutants are replayed by tools/selftest.py. "
+                 "132 independently seeded property-breaking changes (seeded/) and 53 own mutants are replayed by tools/selftest.py. "
+                 "Every evidence file carries reach evidence (coverage.reach: executed lines of the functions anchored in properties.jsonl, sys.monitoring). "
                  "Known findings: /verif/known_findings.json.",
         "not_applicable": na,
     }
